@@ -912,3 +912,105 @@ def enumerate_stale_fanin(desc):
     if bad:
         res.update(status="violation", detail=bad, mechanism="rebuild-set")
     return res
+
+
+def run_stale_join_then(k, W, seed, hold="quiescent"):
+    """Stale check of  a, b (sources) -> j = f(a, b) (not stored);  p = g() (stored, its value MISSING: it is rebuilt);  n = h(j, p) (stored, recent).
+    The worker that asked for a's modified time is held at the k-th instruction of its bookkeeping while b's worker completes its own; p's query
+    is slow (it outlasts that bookkeeping). Whatever the interleaving, n - downstream of the rebuilt p - is rebuilt in the same run."""
+    from . import ir as irmod, regmodel
+
+    ref = irmod.ref
+    rp = regmodel.RegPlan()
+    ir = rp.ir
+    a = ir.add("source", fname="src")
+    b = ir.add("source", fname="src")
+    for s_ in (a, b):
+        rp.role[s_.id] = "psrc"
+        rp.normalising[s_.id] = False
+    j = ir.add("call", args=[ref(a.id), ref(b.id)], fname="fn0")
+    rp.role[j.id] = "plain"
+    p = ir.add("call", args=[], fname="fn1")
+    rp.role[p.id] = "stored"
+    rp.normalising[p.id] = False
+    n = ir.add("call", args=[ref(j.id), ref(p.id)], fname="fn2")
+    rp.role[n.id] = "stored"
+    rp.normalising[n.id] = False
+    ir.meta["family"] = "preempt:stale_join_then"
+    S = regmodel.Session(rp, seed)
+    res, exc = S.run(None, W=1, hang_watch=False)
+    if exc is not None:
+        raise exc
+    S.delete(p.id)
+    exp = S.expect(None, None)
+    OP = OnePreemption(k, 1, hold=hold, files=OnePreemption.FILES + ("caching.py",))
+    H = S.H
+    a_name, b_name, p_name, n_name = (S.store_name[x.id] for x in (a, b, p, n))
+    n_seen = [False]
+
+    def hook(kind, st):
+        if kind != "mt":
+            return
+        if st.name == a_name:
+            OP.arm()
+        elif st.name == b_name:
+            OP.wait_for_ta(1.0)
+        elif st.name == n_name:
+            with OP.cv:
+                n_seen[0] = True
+                OP.cv.notify_all()
+        elif st.name == p_name:
+            # a slow modified-time query: it is still under way when the bookkeeping of a's and b's workers is over (and a little longer)
+            OP.harness_wait(OP.bookkeeping_over, 1.0)
+            OP.harness_wait(lambda: n_seen[0], 0.03)
+
+    with OP:
+        H.store_hook = hook
+        try:
+            res, exc = S.run(None, W=W, hang_watch=False)
+        finally:
+            H.store_hook = None
+    return S, exp, OP, exc, n_seen[0]
+
+
+def enumerate_stale_join_then(desc):
+    import hashlib
+
+    W = desc["W"]
+
+    def oracle(S, exp, exc):
+        if exc is not None:
+            return f"run raised {exc!r}"
+        d = S.check_counts(exp)
+        if d:
+            return f"a stored value upstream (missing, rebuilt in this run) - the stored value downstream of it must be rebuilt in the same run, but: {d}"
+        return None
+
+    S, exp, OP, exc, _ = run_stale_join_then(None, W, desc["seed"])
+    N = OP.count
+    if N == 0:
+        return {"status": "inconclusive", "detail": "stale-check preemption (join_then): the worker that queried source a executed no monitored instruction"}
+    bad = oracle(S, exp, exc)
+    counters = {"preempt_stale_join_cases": 1, "preempt_stale_join_positions": 0, "preempt_stale_join_holds_other_completed": 0}
+    points = set()
+    if bad is None:
+        for k in range(1, N + 1):
+            for hold in ("others", "quiescent"):
+                S, exp, OP, exc, early = run_stale_join_then(k, W, desc["seed"] + k, hold=hold)
+                counters["preempt_stale_join_positions"] += 1
+                if OP.held_at is not None:
+                    points.add(f"{OP.held_at[0]}@{OP.held_at[1]}")
+                    counters["preempt_stale_join_holds_other_completed"] += int(not OP.hold_expired)
+                bad = oracle(S, exp, exc)
+                if bad:
+                    bad = (f"[stale check, sources a, b -> j (not stored); n = h(j, p) stored, p stored and missing with a slow modified-time query: the worker that asked for a's "
+                           f"modified time held at its instruction #{k} of {N} ({OP.held_at}) while b's worker completed its bookkeeping; stale-check workers={W}; "
+                           f"n examined before p's query had returned: {early}] {bad}")
+                    break
+            if bad:
+                break
+    res = {"status": "ok", "counters": counters, "sets": {"preempt_stale_join_points_held": sorted(points)}, "nontrivial": counters["preempt_stale_join_holds_other_completed"] > 0,
+           "sig": hashlib.sha1(f"stalejointhen|{W}".encode()).hexdigest()[:16], "sample": {"desc": desc, "positions_N": N}}
+    if bad:
+        res.update(status="violation", detail=bad, mechanism="rebuild-set")
+    return res
